@@ -544,3 +544,19 @@ def ancestors(node):
     while p is not None:
         yield p
         p = getattr(p, '_parent', None)
+
+
+def clone(node):
+    """Deep copy of an ast subtree without the _parent/_info back pointers."""
+    if isinstance(node, list):
+        return [clone(x) for x in node]
+    if not isinstance(node, ast.AST):
+        return node
+    new = node.__class__()
+    for f in node._fields:
+        if hasattr(node, f):
+            setattr(new, f, clone(getattr(node, f)))
+    for a in ('lineno', 'col_offset', 'end_lineno', 'end_col_offset'):
+        if hasattr(node, a):
+            setattr(new, a, getattr(node, a))
+    return new
